@@ -78,7 +78,9 @@ def gen_dataset(rng, force=None):
         how = rng.choice(["dir", "dir", "_metadata"])
     return {"sizes": sizes, "scheme": scheme, "part": part, "extra": extra, "index": index, "fab": fab, "open": how,
             "mod": [rng.choice([2, 3]), rng.choice([2, 3])], "tz": rng.choice(["US/Pacific", "Europe/Berlin", "UTC", "Asia/Kolkata"]),
-            "tunit": rng.choice(["us", "ns", "ms"])}
+            "tunit": rng.choice(["us", "ns", "ms"]),
+            # several data pages per column chunk (offsets inside a row group's slice of the views), data page v1 / v2
+            "page_size": rng.choice([None, None, 64, 200]), "dpv": rng.choice([1, 1, 2])}
 
 
 def dataset_frame(ds):
@@ -128,12 +130,19 @@ def build_dataset(ds, root):
         kw["row_group_offsets"] = offs
     if ds["index"] and ds["index"] != "rix":
         kw["write_index"] = True
-    if ds["scheme"] == "simple":
-        path = os.path.join(root, "ds.parquet")
-        fastparquet.write(path, df, **kw)
-    else:
-        path = os.path.join(root, "ds")
-        fastparquet.write(path, df, file_scheme=ds["scheme"], partition_on=ds["part"] or [], **kw)
+    saved = writer.MAX_PAGE_SIZE, writer.DATAPAGE_VERSION
+    try:
+        if ds.get("page_size"):
+            writer.MAX_PAGE_SIZE = ds["page_size"]
+        writer.DATAPAGE_VERSION = ds.get("dpv", 1)
+        if ds["scheme"] == "simple":
+            path = os.path.join(root, "ds.parquet")
+            fastparquet.write(path, df, **kw)
+        else:
+            path = os.path.join(root, "ds")
+            fastparquet.write(path, df, file_scheme=ds["scheme"], partition_on=ds["part"] or [], **kw)
+    finally:
+        writer.MAX_PAGE_SIZE, writer.DATAPAGE_VERSION = saved
     if ds["fab"]:
         pf = fastparquet.ParquetFile(path)
         rgs = list(pf.fmd.row_groups)
@@ -704,6 +713,23 @@ def base_facts(ds, pf):
         # `rows d`: what core.read_row_group delivers for this descriptor (read on its own, outside any handle loop)
         df = pf.read_row_group_file(rg, ["id"], None, index=False)
         rg_desc.append([cid, int(rg.num_rows), [int(v) for v in df["id"].tolist()]])
+    # the hypotheses of the theorems, instantiated on this dataset:
+    #   deser (ser l) = Some l      the row-group list survives the thrift round trip pickling uses (and deepcopy)
+    #   deqb reflects equality      structurally equal descriptors deliver the same rows
+    hyp = []
+    try:
+        # (through the handle: ParquetFile.__setstate__ decodes the file paths the thrift reader delivers as bytes)
+        if ds["open"] != "filelike" and not (list(pickle.loads(pickle.dumps(pf)).row_groups) == rgs):
+            hyp.append("pickle.loads(pickle.dumps(pf)).row_groups != pf.row_groups")
+        if not (list(copy.deepcopy(pf).row_groups) == rgs):
+            hyp.append("copy.deepcopy(pf).row_groups != pf.row_groups")
+    except Exception as e:      # noqa
+        hyp.append("round trip of the metadata raised %s: %s" % (type(e).__name__, e))
+    seen = {}
+    for g in rg_desc:
+        if g[0] in seen and seen[g[0]] != g[2]:
+            hyp.append("structurally equal row-group descriptors deliver different rows")
+        seen[g[0]] = g[2]
     with warnings.catch_warnings():
         warnings.simplefilter("ignore")
         try:
@@ -717,7 +743,7 @@ def base_facts(ds, pf):
         pos += c
     pcols = [str(c) for c in pf.cats]
     cols = [str(c) for c in pf.columns]
-    return {"rgs": rg_desc, "counts": counts, "parts": parts, "total": pos, "full_len": len(full),
+    return {"rgs": rg_desc, "counts": counts, "parts": parts, "total": pos, "full_len": len(full), "hypotheses_violated": hyp,
             "full_cells": frame_cells(full), "full_dtypes": frame_dtypes(full), "full_categories": frame_categories(full), "full_columns_dtype": str(full.columns.dtype), "full_range_name": range_name(full), "full_cols": [str(c) for c in full.columns], "full_index": index_names(full),
             "cols": cols, "pcols": pcols, "index": [ds["index"]] if ds["index"] and ds["index"] != "rix" else [], "avail": cols + pcols,
             "cat_cols": [c["name"] for c in ds["extra"] if c["kind"].startswith("cat_")],
@@ -769,7 +795,7 @@ def run_dataset(job):
         if "full_error" in base:
             out["full_error"] = base["full_error"]
             return out
-        out["base"] = {k: base[k] for k in ("rgs", "counts", "total", "full_len", "cols", "pcols", "index", "full_cols", "full_index", "full_ids")}
+        out["base"] = {k: base[k] for k in ("hypotheses_violated", "rgs", "counts", "total", "full_len", "cols", "pcols", "index", "full_cols", "full_index", "full_ids")}
         if progs is None:
             rng = random.Random(pseed)
             progs = [gen_program(rng, ds, base["avail"], base["cols"], base["cat_cols"]) for _ in range(nprog)]
